@@ -34,7 +34,11 @@ func VerifDir() string {
 
 func LoadKnown() KnownFindings {
 	var k KnownFindings
-	b, err := os.ReadFile(filepath.Join(VerifDir(), "known_findings.json"))
+	path := os.Getenv("VERIF_KNOWN")
+	if path == "" {
+		path = filepath.Join(VerifDir(), "known_findings.json")
+	}
+	b, err := os.ReadFile(path)
 	if err == nil {
 		_ = json.Unmarshal(b, &k)
 	}
